@@ -260,6 +260,9 @@ pub fn mk_txin(kind: InKind, vout: u32, script_len: usize, sequence: u32, amount
 /// the complete product of the TxIn alphabet (without witnesses)
 pub fn txins() -> Vec<RTxIn> {
     let mut out = Vec::new();
+    for t in txs_input_variants() {
+        out.push(t.ins[0].clone());
+    }
     let iss = issuance_amount_pairs();
     for kind in IN_KINDS {
         for vout in [0u32, 1, (1 << 30) - 1] {
@@ -403,6 +406,25 @@ pub fn txs_witness_classes() -> Vec<RTx> {
                     }
                 }
             }
+        }
+    }
+    out
+}
+
+/// Single-input transactions over the unusual-but-decodable input shapes: the all-ones index with a NON-zero
+/// txid (not a null outpoint, yet flag-free), and every (amount, keys) pair of a new issuance / reissuance
+/// including the token-only ones (null amount, non-null keys), with and without the pegin flag.
+pub fn txs_input_variants() -> Vec<RTx> {
+    let mut out = Vec::new();
+    let mut push = |i: RTxIn| out.push(RTx { version: 2, lock_time: 0, ins: vec![i], outs: vec![txout_rep(0), txout_rep(3)] });
+    for tp in [0usize, 1, 6] {
+        let mut i = mk_txin(InKind::Plain, 0, 1, 0xffff_fffe, &(RValue::Null, RValue::Null), tp);
+        i.vout = 0xffff_ffff;
+        push(i);
+    }
+    for kind in [InKind::Issuance, InKind::Reissuance, InKind::PeginIssuance] {
+        for am in issuance_amount_pairs() {
+            push(mk_txin(kind, 3, 0, 0xffff_ffff, &am, 2));
         }
     }
     out
